@@ -97,6 +97,10 @@ def begin_run(env_seed):
     _STATE['hash_rng'] = dict((name, random.Random('%d/%s' % (env_seed, name)))
                               for name in ('cid', 'link', 'data', 'subset', 'state', 'group', 'comp', 'linkcoll'))
     _STATE['uuid_rng'] = random.Random((env_seed << 1) ^ 0x1b873593)
+    # N12: the process-global generators (glue draws categorical jitter and random subsets from numpy's)
+    random.seed(env_seed ^ 0x5bd1e995)
+    if 'numpy' in sys.modules:
+        sys.modules['numpy'].random.seed((env_seed ^ 0x2545f491) & 0xffffffff)
 
 
 def end_run():
